@@ -220,15 +220,17 @@ class C06(vlib.Driver):
         self.exhaustive = True
         # (a1) boundary-complete grid, small dyadic numbers: float arithmetic is exact, so the rational instance is compared too
         for isint in (False, True):
-            mins = [1, 2] if isint else [1, 1.5, 2]
+            mins = [0, 1, 2] if isint else [0, 1, 1.5, 2]
             for mn in mins:
                 for mx in sorted({mn, 4, 8}):
                     if mx < mn:
                         continue
                     for sh, gr in itertools.product([0.5, 0.75, 1.0], [1.0, 1.5, 2.0]):
                         par = {"min": mn, "max": mx, "shrink": sh, "grow": gr, "int": isint}
-                        vs = sorted({0.5, 1, mn, mn / sh, (mn + mx) / 2, 3, mx / gr, mx, 16, mn * 2})
+                        vs = sorted({0, 0.5, 1, mn, mn / sh, (mn + mx) / 2, 3, mx / gr, mx, 16, mn * 2})
                         vs = [int(v) if (isint and float(v).is_integer()) else v for v in vs]
+                        if mn == 0:
+                            vs += [0.0, -0.0]
                         if not isint:   # a float hyperparameter whose current value is a Python int object
                             vs += [int(v) for v in vs if float(v).is_integer() and not is_int(v)]
                         pts = [[v, u] for v in vs for u in U_GRID]
@@ -398,6 +400,27 @@ class C06(vlib.Driver):
                 cases.append({"kind": "pop", "algo": algo, "size": 2, "hp": hp, "order": names, "ops": ops, "init": init,
                               "init_types": dict({INIT_KEY[n]: kind for n in floats}, BATCH_SIZE="float"),
                               "build": "classmethod" if kind == "np_float" else "create_population"})
+            # a hyperparameter whose CURRENT value is exactly 0 / 0.0 / -0.0 (range with min = 0), exactly min and exactly
+            # max, AFTER an earlier mutation of the same hyperparameter (the cached value is non-empty and different): the
+            # value is assigned from outside, or the configuration comes from a mutated donor.  0 * factor = 0: it stays 0.
+            z = [n for n in EXTRA[algo] if n not in INT_HPS][0]
+            names = [z, "batch_size"] + lr_names(algo)[:1]
+            hp = {n: default_par(n) for n in names}
+            hp[z] = {"min": 0, "max": 1.0, "shrink": 0.8, "grow": 1.2, "int": False}
+            hp["batch_size"] = {"min": 0, "max": 64, "shrink": 0.8, "grow": 1.2, "int": True}
+            ops = [["round", [[0, 0.75], [0, 0.25]]],
+                   ["set", 0, z, 0.0], ["set", 1, z, 0], ["round", [[0, 0.25], [0, 0.75]]], ["round", [[0, 0.75], [0, 0.25]]],
+                   ["set", 0, z, -0.0], ["set", 1, z, 1.0], ["round", [[0, 0.75], [0, 0.75]]],
+                   ["set", 0, z, 0.5], ["round", [[0, 0.25], [1, 0.25]]], ["set", 0, z, 0.0], ["clone", 0, 1],
+                   ["round_keep_elite", [[0, 0.75]]], ["loadinto", 1, 0], ["one", 0, 0, 0.25]]
+            zero_ok = algo not in ("NeuralUCB", "NeuralTS")     # the bandits' constructors (hence clone) assert gamma, reg > 0
+            if not zero_ok:
+                ops = [o for o in ops if o[0] != "clone"]
+            cases.append({"kind": "pop", "algo": algo, "size": 2, "hp": hp, "order": names, "ops": ops, "init": {INIT_KEY[z]: 0.5}})
+            if zero_ok:
+                cases.append({"kind": "pop", "algo": algo, "size": 2, "hp": hp, "order": names, "init": {INIT_KEY[z]: 0.0},
+                              "donor": {"draws": [[0, 0.75], [0, 0.75]], "init": {INIT_KEY[z]: 0.5}},
+                              "ops": [["round", [[0, 0.25], [0, 0.75]]], ["round", [[0, 0.75], [1, 0.25]]]]})
             # one RLParameter object configured under two names; and a configuration object taken from an agent that was
             # already mutated (its cached values must not become the base of the new individuals' mutations)
             if algo in LR2:
@@ -622,7 +645,9 @@ class C06(vlib.Driver):
         trace, stepped = [], []
         for op in case["ops"]:
             stepped.append([])
-            if op[0] == "round":
+            if op[0] == "set":       # assignment from outside the library (user code / a schedule)
+                setattr(pop[op[1]], op[2], op[3])
+            elif op[0] == "round":
                 with Scripted(perms=[d[0] for d in op[1]], rands=[d[1] for d in op[1]], nconfig=ncfg) as s:
                     pop = list(muts.mutation(pop))
                 s.assert_consumed()
@@ -765,15 +790,18 @@ class C06(vlib.Driver):
                 ops.append(f"Learn {op[1]}")
             elif op[0] == "other":
                 ops.append(f"OtherMut {op[1]}")
+            elif op[0] == "set":
+                ops.append(f"KSet {op[1]} {nid[op[2]]} {cf(op[3])}")
             else:
                 ops.append(f"Clone {op[1]} {op[2]}")
+        ops = [o if o.startswith("KSet ") else f"K ({o})" for o in ops]
         pop0 = "[" + "; ".join(agent0(o) for o in obs["obs0"]) + "]"
         # the label before the first mutation is whatever the constructor left; it is not compared
         ob0 = "[" + "; ".join(agent_obs(dict(o, mut=None)) for o in obs["obs0"]) + "]"
         steps = []
         unknown = set()   # individuals whose label was left by an architecture / parameter / activation mutation (not modelled)
         for op, step, st in zip(case["ops"], obs["trace"], obs.get("stepped") or [[] for _ in case["ops"]]):
-            if op[0] == "other":
+            if op[0] in ("other", "set"):
                 unknown.add(op[1])
             elif op[0] == "round":
                 unknown -= set(range(len(op[1]))) if case["order"] else set(range(len(step)))
@@ -902,6 +930,9 @@ class C06(vlib.Driver):
                     return done(Violation("label", f"pop:elite-label:{algo}", f"{where}: mutate_elite=False but member 0 has label {after[0]['mut']!r}"), t)
             elif op[0] in ("clone", "loadinto", "loadnew"):
                 src = {op[2]: op[1]}
+            elif op[0] == "set":      # our own assignment: becomes the individual's current value
+                prev = [dict(b, vals=dict(b["vals"], **{op[2]: [op[3], type(op[3]).__name__]})) if i == op[1] else b
+                        for i, b in enumerate(prev)]
             for i, (b, a) in enumerate(zip(prev, after)):
                 ref = prev[src[i]] if i in src else b
                 if i in touched or (op[0] == "round" and not order):
